@@ -1,6 +1,7 @@
 package pathint
 
 import (
+	"fmt"
 	"go/token"
 	"go/types"
 	"strings"
@@ -211,6 +212,30 @@ func (st *State) bitsBinop(x *ssa.BinOp, res Val) Val {
 			}
 			return res
 		}
+		// a whole symbol tested against 0/1 (`m.IntraSliceRefresh == 1` written as one bit): under the assumption
+		// that the symbol is 0 or 1 the test is its bit 0
+		if cb, isC := vb.IsConst(); isC && !signed && (cb == 0 || cb == 1) {
+			if src, ok := wholeSymbol(va); ok {
+				bit0 := bitdom.AtomForm(bitdom.Atom{Src: src, Bit: 0})
+				var f bitdom.Form
+				known := true
+				switch {
+				case cb == 1 && x.Op == token.EQL, cb == 0 && (x.Op == token.NEQ || x.Op == token.GTR):
+					f = bit0
+				case cb == 1 && x.Op == token.NEQ, cb == 0 && (x.Op == token.EQL || x.Op == token.LEQ):
+					f = bit0.Not()
+				default:
+					known = false
+				}
+				if known {
+					if ip.BitAssumptions == nil {
+						ip.BitAssumptions = map[string]bool{}
+					}
+					ip.BitAssumptions[src+" is 0 or 1 (it is tested against "+fmt.Sprint(cb)+" and carried by a single bit)"] = true
+					return st.withBits(res, bitdom.Vec{f})
+				}
+			}
+		}
 		// single-bit tests: x&m != 0, x&m > 0, x&m == 0, x&m == m
 		if cb, isC := vb.IsConst(); isC && !signed || isC && cb == 0 {
 			if f, idx, one := singleBit(va); one {
@@ -419,3 +444,24 @@ func (st *State) noteDead(x *ssa.BinOp, operand, result bitdom.Vec) {
 
 // SetDef records the bits of an opaque symbol on this path (for oracles).
 func (st *State) SetDef(sym string, vec bitdom.Vec) { st.setDef(IntVal(lin.Sym(sym)), vec) }
+
+// wholeSymbol: the vector is bits 0..k-1 (k >= 2) of one symbol, zero above.
+func wholeSymbol(v bitdom.Vec) (string, bool) {
+	src := ""
+	n := 0
+	for i, f := range v {
+		if f.IsZero() {
+			continue
+		}
+		if f.Top || f.C || len(f.Atoms) != 1 || f.Atoms[0].Bit != i || strings.HasPrefix(f.Atoms[0].Src, "p:") {
+			return "", false
+		}
+		if src == "" {
+			src = f.Atoms[0].Src
+		} else if src != f.Atoms[0].Src {
+			return "", false
+		}
+		n++
+	}
+	return src, n >= 2
+}
